@@ -146,4 +146,13 @@ def main():
 
 
 if __name__ == "__main__":
-    main()
+    try:
+        main()
+    except SystemExit as e:
+        # exit 10 = failure reproduced on the real code; anything else = not reproduced / cannot replay
+        code = e.code if isinstance(e.code, int) else 2
+        sys.exit(10 if code == 1 else (0 if code == 0 else 2))
+    except BaseException:
+        import traceback
+        traceback.print_exc()
+        sys.exit(2)
